@@ -1,14 +1,20 @@
 #!/bin/bash
-# tools/seeded_all.sh: run, for every kept seeded change, the check(s) recorded in its meta.json (caught_by, default: its own
-# property) in the quick tier and report CAUGHT / MISSED. Uses a scratch worktree through VERIF_REPO; /repo is not touched.
+# tools/seeded_all.sh [ids...]: run, for every kept seeded change, the check(s) recorded in its meta.json (caught_by, default: its
+# own property) in the quick tier and report CAUGHT / MISSED. Uses a scratch worktree through VERIF_REPO; /repo is not touched.
+# The minimised replay file of the first violation is kept as seeded/<id>/replay.json (see tools/seeded_replays.sh).
 cd /verif || exit 2
-for d in seeded/*/; do
-  id=$(basename "$d")
+ids=${@:-$(ls -d seeded/*/ | xargs -n1 basename)}
+for id in $ids; do
+  d=seeded/$id
   checks=$(python3 -c "import json,sys; m=json.load(open('$d/meta.json')); print(' '.join(m.get('caught_by') or [m['property']]))")
   verdict=MISSED
   for c in $checks; do
-    out=$(tools/seeded_eval.sh "$d/patch.diff" "$c" 2>&1 | head -2)
-    echo "$out" | grep -q "exit=1" && verdict="CAUGHT by $c: $(echo "$out" | grep 'unknown violation' | cut -c36-200)"
+    out=$(tools/seeded_eval.sh "$d/patch.diff" "$c" 2>&1)
+    if echo "$out" | head -2 | grep -q "exit=1"; then
+      verdict="CAUGHT by $c: $(echo "$out" | grep 'unknown violation' | head -1 | cut -c36-200)"
+      rp=$(echo "$out" | grep '^VIOLATION' | head -1 | sed 's/.*replay=//')
+      [ -n "$rp" ] && [ -f "$rp" ] && cp "$rp" "$d/replay.json" && echo "$c" > "$d/replay.check"
+    fi
   done
   echo "$id: $verdict"
 done
